@@ -10,7 +10,7 @@ V = {
     "int": ["-2147483648", "-1", "0", "1", "2147483647", "7"],
     "bigint": ["-9223372036854775808", "-1", "0", "9223372036854775807", "3000000000"],
     "smallint": ["-32768", "-1", "0", "32767"],
-    "double": ["0.0", "-0.0", "1.5", "-1.5", "1000000.5", "-1000000.5", "0.1", "0.000001", "2.5"],
+    "double": ["0.0", "-0.0", "1.5", "-1.5", "1000000.5", "-1000000.5", "0.1", "0.000001", "2.5", "cast('NaN' as double)", "cast('inf' as double)", "cast('-inf' as double)", "cast('nan' as double)"],
     "decimal(20,6)": ["1.0", "1.00", "1.5", "-1.5", "0", "0.00", "123456789.123", "-0.000001", "10", "9.999999"],
     "boolean": ["true", "false"],
     "varchar": ["''", "'a'", "'A'", "'ab'", "'b'", "' '", "'é'", "'z'", "'a '", "'10'", "'9'"],
